@@ -33,6 +33,10 @@ def run(rep, prog, tier):
     from ..report import Retag
     from .c10 import r10 as pinned_commit
     pinned_commit(Retag(rep, "C01-R8"), prog)
+    rep.rule("C01-R9", "what a crash can expose is a commit (shared with C02-R5 / C04-R5 / C05-R7): a background merge rewrites meta.json between two commits, so merges of committed segments must apply deletes only up to the last commit's opstamp (load_meta().opstamp), never up to the current stamp — otherwise a stop before the next commit re-opens on the last commit minus deletes that were never committed")
+    from ..report import Retag
+    from .c04 import r5 as merge_targets
+    merge_targets(Retag(rep, "C01-R9"), prog, "C01-R9")
 
 
 def publish_sites(prog, static):
